@@ -519,14 +519,21 @@ def _run(ctx, d, pgpy):
         hist.run(ops)
         ctx.case(suite, (n, a, h, count, repr(pw)), sample={'key': n, 'cipher': a, 's2k_hash': h, 'count': count, 'pw': pw_json(pw)})
 
+    ctx.exhaustive.append('every protection cipher PGPy supports (9) and every S2K hash (7) at least once' if ctx.quick else
+                          'all 63 protection cipher x S2K hash combinations')
+    ctx.exhaustive.append('foreign forms: usage {254, 255} x S2K {simple, salted, iterated} on every pool key (usage 255 not on DSA), GNU stubs ext 1 / 2')
+
     # ---- 2. histories: scripted + random
     suite = 'histories'
     for n in names:
         for k, ops in enumerate(scripted_histories(pws[2], 'not the passphrase', 9, 8, 96, has_dec[n])):
             Hist(ctx, d, pgpy, n, suite).run(ops)
             ctx.case(suite, (n, 'scripted', k), sample={'key': n, 'ops': ''.join(o['op'] for o in ops)})
+    # the extracted model works on unary-free but inductive Z: an RSA-2048 export costs it ~0.15 s, so the quick tier
+    # takes RSA for one random history in eight (all scripted histories above run on every key)
+    rot = names if not ctx.quick else [n for n in names if not n.startswith('rsa')] * 2 + names
     for j in range(ctx.n(40, 600)):
-        n = names[j % len(names)]
+        n = rot[j % len(rot)]
         ops = gen_history(rng, pws, has_dec[n], rng.randrange(4, 14), [0, 16, 96] if j % 25 else [255])
         Hist(ctx, d, pgpy, n, suite).run(ops)
         ctx.case(suite, (n, repr(ops)), sample={'key': n, 'ops': ''.join(o['op'] for o in ops)})
@@ -536,6 +543,11 @@ def _run(ctx, d, pgpy):
 
     # ---- 4. mixed keys: unprotected subkey under a protected primary (enter raises TypeError, finally clears everything)
     mixed(ctx, d, pgpy, pws)
+    if not ctx.quick:
+        try:
+            gpg_crosscheck(ctx, d, pgpy, names, pws)
+        except Exception as ex:
+            ctx.notes.append('gpg cross-check could not run: %r' % ex)
     ctx.notes.append('partial: CPython heap residue of freed integers / bytearrays is outside the model and unobservable here; '
                      'checked instead: no secret integer or its octets reachable from the key object graph after every scope exit')
     ctx.notes.append('usage-255 foreign forms are restricted to RSA / ECDSA / EdDSA / ECDH: DSA / ElGamal usage 255 is the C08-class '
@@ -620,15 +632,24 @@ def check_foreign(ctx, d, pgpy, suite, case, plain, orig):
         if bytes(key) != blob:
             ctx.fail(suite, 'foreign protected key is not re-exported octet for octet', case)
             ok = False
+        wrong = b'definitely wrong ' + pw_octets(pw)[:4]
+        expect_reject = True
+        if case['usage'] == 255:
+            # a 16-bit checksum lets a wrong passphrase through once in 65536 tries: ask the model whether this is such a case
+            expect_reject = parse_read(d.call('readkey', hx(blob), hx(wrong)))[0].get('res') == 'BAD'
         try:
-            with key.unlock(b'definitely wrong ' + pw_octets(pw)[:4]):
-                ctx.fail(suite, 'wrong passphrase accepted', case)
-                ok = False
+            with key.unlock(wrong):
+                if expect_reject:
+                    ctx.fail(suite, 'wrong passphrase accepted', case)
+                    ok = False
         except PGPDecryptionError:
-            pass
+            if not expect_reject:
+                ctx.fail(suite, 'model gate accepts where the implementation rejects', case)
+                ok = False
         except Exception as ex:
-            ctx.fail(suite, 'wrong passphrase: unexpected %r' % ex, case)
-            ok = False
+            if expect_reject:
+                ctx.fail(suite, 'wrong passphrase: unexpected %r' % ex, case)
+                ok = False
         if key.is_unlocked or any(v for pk in pkts(key) for v in secret_ints(pk)):
             ctx.fail(suite, 'wrong passphrase left secret material behind', case)
             ok = False
@@ -728,6 +749,67 @@ def mixed(ctx, d, pgpy, pws, only=None):
             ops = [{'op': 'O'}, {'op': 'E', 'pw': pw_json('pw')}, {'op': 'O'}, {'op': 'E', 'pw': pw_json('bad')}, {'op': 'X'}]
             hist.run(ops, key=k2)
         ctx.case(suite, n, sample=case)
+
+
+def gpg_crosscheck(ctx, d, pgpy, names, pws):
+    """OPTIONAL validation aid (never a condition for passing): GnuPG as a third implementation.  It must import (a) keys whose
+    secret part the MODEL wrote and (b) keys PGPy protected, with the passphrase, and produce a signature that verifies under the
+    public key - i.e. it recovered the same secret integers."""
+    import shutil, subprocess, tempfile
+    if not os.path.exists('/usr/bin/gpg'):
+        ctx.notes.append('gpg cross-check: /usr/bin/gpg not present, skipped')
+        return
+    rng = ctx.rng
+    okc, bad = 0, []
+    todo = [(n, src, u, sp) for n in ('ed25519', 'rsa2048', 'p256') if n in names
+            for (src, u, sp) in (('model', 254, 0), ('model', 254, 1), ('model', 254, 3), ('model', 255, 3), ('pgpy', 254, 3))]
+    for (n, src, u, sp) in todo:
+        home = tempfile.mkdtemp(prefix='c06gpg')
+        try:
+            os.chmod(home, 0o700)
+            key = keypool.get(n)
+            pub = key.pubkey
+            pw = 'gpg cross-check'
+            if src == 'model':
+                a, h = rng.choice([7, 8, 9]), rng.choice([2, 8, 10])
+                fs = ['S,%s,%s,%s,%s,%s,%s,%s,%s' % (hn(u), hn(a), hn(sp), hn(h), hx(bytes(rng.randrange(256) for _ in range(8))) if sp else '-',
+                                                       hn(96 if sp == 3 else 0), hx(bytes(rng.randrange(256) for _ in range(16))), hx(pw.encode()))
+                      for _ in pkts(key)]
+                blob = unhx(d.call('rewrite', hx(bytes(key)), ';'.join(fs)))
+            else:
+                from pgpy.constants import SymmetricKeyAlgorithm, HashAlgorithm
+                key.protect(pw, SymmetricKeyAlgorithm.AES256, HashAlgorithm.SHA256)
+                blob = bytes(key)
+            open(home + '/k.gpg', 'wb').write(blob)
+            base = ['gpg', '--homedir', home, '--batch', '--no-tty', '--pinentry-mode', 'loopback', '--passphrase', pw]
+            r1 = subprocess.run(base + ['--import', home + '/k.gpg'], capture_output=True, timeout=60)
+            for attempt in (0, 1):   # the agent start-up occasionally loses the first request on a loaded machine
+                r2 = subprocess.run(base + ['--yes', '--detach-sign', '-o', home + '/s.sig'], input=b'cross-check text\n', capture_output=True, timeout=60)
+                if r2.returncode == 0:
+                    break
+            good = False
+            if r1.returncode == 0 and r2.returncode == 0:
+                with warnings.catch_warnings():
+                    warnings.simplefilter('ignore')
+                    sig = pgpy.PGPSignature.from_blob(open(home + '/s.sig', 'rb').read())
+                    try:
+                        good = bool(pub.verify(b'cross-check text\n', sig))
+                    except Exception:
+                        good = False
+            if good:
+                okc += 1
+            else:
+                bad.append('%s/%s/usage%d/spec%d' % (n, src, u, sp))
+        except Exception as ex:
+            bad.append('%s/%s/usage%d/spec%d: %r' % (n, src, u, sp, ex))
+        finally:
+            try:
+                subprocess.run(['gpgconf', '--homedir', home, '--kill', 'gpg-agent'], capture_output=True, timeout=20)
+            except Exception:
+                pass
+            shutil.rmtree(home, ignore_errors=True)
+    ctx.notes.append('gpg 2.2 cross-check (optional, not a pass condition): %d/%d keys imported with the passphrase and signing verifiably '
+                     '(model-written usage 254/255 simple/salted/iterated + PGPy-protected)%s' % (okc, len(todo), '; gpg did not complete for: ' + ', '.join(bad) if bad else ''))
 
 
 def replay(ctx, case):
